@@ -127,6 +127,15 @@ func (r *Rtmp2RtspRemuxer) FeedRtmpMsg(msg base.RtmpMsg) {
 		if msg.IsAvcKeySeqHeader() || msg.IsHevcKeySeqHeader() {
 			if msg.IsAvcKeySeqHeader() {
 				r.sps, r.pps, err = avc.ParseSpsPpsFromSeqHeader(msg.Payload)
+				if err != nil {
+					// a sequence header with several sps or several pps (the mpegts side handles those as well):
+					// the sdp announces the first sps and the first pps, the others have to come in band
+					var spsList, ppsList [][]byte
+					spsList, ppsList, err = avc.ParseSpsPpsListFromSeqHeader(msg.Payload)
+					if err == nil && len(spsList) > 0 && len(ppsList) > 0 {
+						r.sps, r.pps = spsList[0], ppsList[0]
+					}
+				}
 				Log.Assert(nil, err)
 			} else if msg.IsHevcKeySeqHeader() {
 				if msg.IsEnhanced() {
